@@ -269,6 +269,7 @@ def run(prog, chk):
     raw_text_to_nul_readers(prog, chk, "C06.k", fs)
     stale_text_pointers(prog, chk, "C06.l", fs)
     last_occurrence_scans(prog, chk, "C06.m", fs)
+    text_pointer_sources(prog, chk, "C06.n")
 
 
 def formatted_length(prog, chk, fs):
@@ -736,3 +737,47 @@ def last_occurrence_scans(prog, chk, rid, fs):
                 chk.bad(rid, f, "last-occurrence-restart-offset", f.where(st.node),
                         "the search is repeated from `%s + %s`; unless that offset is exactly 1 an occurrence that overlaps the previous hit is "
                         "stepped over (findLast(\"aaa\", \"aa\") answers 0 instead of 1)" % (l["ref"]["n"], q.no_casts(f.r(a0["c"][1]))[:30]), evals=1)
+
+
+def text_pointer_sources(prog, chk, rid):
+    """A String either owns its text (the bytes right behind its own descriptor block) or refers to text the CALLER named explicitly
+    (literal constructor, attach).  Copies are independent values: no operation may make a String refer to the text of another
+    String, or to any address it computed itself - the other side may be attached to a buffer that changes or goes away."""
+    chk.rule(rid, "WHO: every store to Data::str takes either the address right behind the descriptor block it is stored into (owned text) "
+                  "or a `const char*` / char-array parameter of a function that has no String parameter (text named by the caller); "
+                  "EmptyData points at its own zero length", floor=6)
+    seen = set()
+    for f in sorted(prog.functions.values(), key=lambda g: g.sig):
+        if not f.blocks or not (f.clsq or "").startswith("String"):
+            continue
+        for st in q.stores(f):
+            l = f.nodes[st.lhs]
+            if l["k"] != "MemberExpr" or l.get("m") != "str" or "String" not in (l.get("mclsq") or l.get("mcls") or ""):
+                continue
+            where = f.where(st.node)
+            base = q.no_casts(f.r(l["c"][0])) if l["c"] else ""
+            if st.op != "=" or st.rhs is None:
+                chk.bad(rid, f, "text-pointer-modified:" + st.op, where, "`%s` moves the text pointer of a String in place" % f.r(st.node)[:60])
+                continue
+            rt = q.no_casts(q.xr(f, st.rhs)).replace(" ", "").strip("()")
+            rn = f.nodes[f.strip(st.rhs)]
+            while rn["k"] in ("CStyleCastExpr", "ImplicitCastExpr", "ParenExpr", "CXXStaticCastExpr", "CXXReinterpretCastExpr") and rn["c"]:
+                nx_ = f.strip(rn["c"][0])
+                rn = f.nodes[nx_] if nx_ != rn["i"] else f.nodes[rn["c"][0]]
+            own = False
+            if rn["k"] == "BinaryOperator" and rn.get("op") == "+" and len(rn["c"]) == 2:
+                sides = [q.no_casts(f.r(c_)).replace(" ", "") for c_ in rn["c"]]
+                own = base.replace(" ", "") in sides and "sizeof(String::Data)" in sides
+            caller_text = rn["k"] == "DeclRefExpr" and rn["ref"].get("dk") == "parm" and re.search(r"^const char ?(\*|\(&\)\[)", rn["ref"].get("t") or "") and \
+                not any("String" in (p_.get("t") or "") for p_ in f.params)
+            empty = f.gname.startswith("String::EmptyData") and rt == "&this->len"
+            key = (f.gname, base, "own" if own else "caller" if caller_text else "empty" if empty else rt)
+            if own or caller_text or empty:
+                if key not in seen:
+                    chk.ok(rid, f, "str = %s" % ("the bytes behind its own descriptor" if own else "the caller's text" if caller_text else "own zero length"), where, rt[:60], evals=1)
+                seen.add(key)
+            else:
+                chk.bad(rid, f, "text-pointer-from-elsewhere:" + base.replace("this->", ""), where,
+                        "`%s` makes the String refer to text that is neither its own block nor text its caller named (`%s`): a copy that "
+                        "shares unowned text changes when the other side's buffer is overwritten and dangles when it is freed "
+                        "(String a; a.attach(buf, n); String b(a); buf[0] = 'x'; - b changed)" % (f.r(st.node)[:70], rt[:50]), evals=1)
